@@ -122,10 +122,18 @@ def parseRelTail (ts : List Tok) : Option (String × String × Option String × 
     | (ph, r1) => some (rel, ph, none, r1)
   | _ => none
 
+/-- the receiver after ` to ` -/
+def parseTo : List Tok → Option (EvtTo × List Tok)
+  | ident kl :: kw class_ :: r => some (.cls kl, r)
+  | ident kl :: kw creator :: r => some (.creator kl, r)
+  | kw self_ :: r => some (.inst .self, r)
+  | ident v :: r => some (.inst (.var v), r)
+  | _ => none
+
 /-- tokens a statement of the output language can start with -/
 def stmtStart : Tok → Bool
   | kw assign | kw return_ | kw break_ | kw continue_ | kw control_ | kw create | kw delete | kw relate
-  | kw unrelate | kw select | kw for_ | kw while_ | kw if_ | kw bridge | kw transform => true
+  | kw unrelate | kw select | kw for_ | kw while_ | kw if_ | kw bridge | kw transform | kw generate => true
   | ns _ => true
   | p dcolon => true
   | _ => false
@@ -156,6 +164,24 @@ mutual
       | kw break_ :: r => some (.brk, r)
       | kw continue_ :: r => some (.cont, r)
       | kw control_ :: kw stop :: r => some (.ctl, r)
+      | kw create :: kw event :: kw instance_ :: ident v :: kw of_ :: ident l :: p colon :: phrase m :: p lpar :: r =>
+        match parseParams ctx f r with
+        | some (d, p rpar :: kw to :: r1) =>
+          match parseTo r1 with
+          | some (tgt, r2) => some (.createEvt v l (some m) d tgt, r2)
+          | none => none
+        | _ => none
+      | kw generate :: ident l :: p colon :: phrase m :: p lpar :: r =>
+        match parseParams ctx f r with
+        | some (d, p rpar :: kw to :: r1) =>
+          match parseTo r1 with
+          | some (tgt, r2) => some (.genEvt l (some m) d tgt, r2)
+          | none => none
+        | _ => none
+      | kw generate :: r =>
+        match parseExpr ctx f r with
+        | some (e, r1) => some (.genPre e, r1)
+        | none => none
       | kw create :: kw object :: kw instance_ :: r =>
         match r with
         | kw of_ :: ident kl :: r1 => some (.createNV kl, r1)
